@@ -193,6 +193,14 @@ def injector_cases():
         for tmpl in ('SELECT {} FROM #t', 'SELECT i FROM #t WHERE {} = s', 'SELECT count(*) FROM #t GROUP BY {}', 'SELECT i FROM #t ORDER BY {}',
                      'SELECT i, count(*) FROM #t GROUP BY i HAVING count(*) > 0 AND str({}) = "x"', 'SELECT i IN (SELECT j FROM #t WHERE str({}) = s) FROM #t'):
             add('constant-cannot-be-evaluated', tmpl.format(expr), R)
+    # IN sub-selects: exactly one column (none, as SELECT * over the null table gives, is not one)
+    add('in-subquery-columns', 'SELECT i FROM #t WHERE i IN (SELECT * FROM #)', R)
+    add('in-subquery-columns', 'SELECT i FROM #t WHERE i NOT IN (SELECT * FROM # WHERE FALSE)', R)
+    add('in-subquery-columns', 'SELECT i IN (SELECT * FROM #) FROM #t', R)
+    add('in-subquery-columns', 'SELECT i FROM #t WHERE i IN (SELECT i, j FROM #t)', R)
+    add('in-subquery-columns', 'SELECT i FROM #t WHERE i IN (SELECT * FROM #t)', R)
+    add('in-subquery-columns', 'SELECT i FROM #t WHERE i IN (SELECT j FROM #t)', A)
+    add('in-subquery-columns', 'SELECT i FROM #t WHERE i IN (SELECT * FROM (SELECT j FROM #t))', A)
     # an existing table without rows (list-backed: its truth value is False)
     add('empty-table', 'SELECT i, s FROM #nostock', A)
     add('empty-table', 'SELECT s, count(*) FROM #nostock GROUP BY s', A)
